@@ -38,6 +38,7 @@ public:
 
     OwnThreadHandler<BaseHandler> &moveToOwnThread()
     {
+        QTLOGGER_VERIF_POINT("oth.move.enter", this);
         QMutexLocker locker(&m_mutex);
 
         if (m_thread)
@@ -70,12 +71,14 @@ public:
         });
 
         m_thread->start();
+        QTLOGGER_VERIF_POINT("oth.move.started", this);
 
         return *this;
     }
 
     void resetOwnThread()
     {
+        QTLOGGER_VERIF_POINT("oth.reset.enter", this);
         QMutexLocker locker(&m_mutex);
 
         if (!m_thread)
@@ -83,10 +86,12 @@ public:
 
         while (m_pendingCount.loadAcquire() > 0) {
             locker.unlock();
+            QTLOGGER_VERIF_POINT("oth.reset.wait", this);
             QThread::msleep(10);
             locker.relock();
         }
 
+        QTLOGGER_VERIF_POINT("oth.reset.quit", this);
         m_thread->quit();
 
         if (!m_thread->wait(3000)) {
@@ -96,16 +101,21 @@ public:
 
         m_thread.clear();
         m_worker = nullptr;
+        QTLOGGER_VERIF_POINT("oth.reset.done", this);
     }
 
     bool process(LogMessage &lmsg) override
     {
+        QTLOGGER_VERIF_POINT("oth.enter", this);
         QMutexLocker locker(&m_mutex);
+        QTLOGGER_VERIF_POINT("oth.locked", this);
 
         if (m_worker) {
             m_pendingCount.fetchAndAddOrdered(1);
+            QTLOGGER_VERIF_POINT("oth.post.msg", &lmsg);
             QCoreApplication::postEvent(m_worker, new LogEvent(lmsg));
         } else {
+            QTLOGGER_VERIF_POINT("oth.sync", this);
             BaseHandler::process(lmsg);
         }
         return true;
@@ -123,6 +133,13 @@ private:
         }
 
         LogMessage lmsg;
+#ifdef QTLOGGER_VERIF
+        // Declared after lmsg, hence initialised once the deep copy is complete
+        struct VerifPosted
+        {
+            explicit VerifPosted(const void *event) { QTLOGGER_VERIF_POINT("oth.post", event); }
+        } verifPosted { this };
+#endif
     };
 
     class Worker : public QObject
@@ -132,6 +149,7 @@ private:
 
         void customEvent(QEvent *event) override
         {
+            QTLOGGER_VERIF_POINT("oth.deliver", event);
             if (event->type() == LogEvent::type()) {
                 auto logEvent = dynamic_cast<LogEvent *>(event);
                 if (logEvent) {
@@ -139,6 +157,7 @@ private:
                     m_handler->m_pendingCount.fetchAndSubOrdered(1);
                 }
             }
+            QTLOGGER_VERIF_POINT("oth.delivered", event);
         }
 
     private:
